@@ -358,6 +358,7 @@ Record FLay (w : writer) (y : lay) (A : amsg) : Prop := mkFLay {
   f_ca : w_an w = N.of_nat (length (am_an A));
   f_cn : w_ns w = N.of_nat (length (am_ns A));
   f_cr : w_ar w = (N.of_nat (length (am_ar A)) + b2N (osome (w_edns w)) + b2N (osome (w_tsig w)))%N;
+  f_bd : (w_qd w <= 65535 /\ w_an w <= 65535 /\ w_ns w <= 65535 /\ w_ar w <= 65535)%N;
   f_sec : match w_section w with
           | SecQuestion => am_an A = [] /\ am_ns A = [] /\ am_ar A = []
           | SecAnswer => am_ns A = [] /\ am_ar A = []
